@@ -32,6 +32,8 @@ type Names struct {
 	Long bool
 	// Special (Opts.KeywordNames): names may be contextual keywords and single letters (audit_c01.go)
 	Special bool
+	// Called: the methods get called in generated bodies (Opts.Bodies)
+	Called bool
 }
 
 // exoticPieces are put behind, inside or in front of a name (Names.Exotic). The first ones are the plainest.
